@@ -5,7 +5,7 @@ from common import STATEX_ASSUME, splice_qbft
 
 CHECK = dict(
     pkgs=["core/qbft", "core/consensus/qbft"],
-    files={"core/qbft": ["zz_verif_c02_test.go", "zz_verif_hook.go"], "core/consensus/qbft": ["zz_verif_c05_test.go", "zz_verif_c02l_test.go"]},
+    files={"core/qbft": ["zz_verif_c02_test.go", "zz_verif_hook.go"], "core/consensus/qbft": ["zz_verif_c05_test.go", "zz_verif_c05x_test.go", "zz_verif_c02l_test.go"]},
     libs=["enumx"],
     splice={"core/qbft/qbft.go": splice_qbft},
     run={"core/qbft": "TestVerifC02", "core/consensus/qbft": "TestVerifC02L"},
